@@ -30,8 +30,22 @@
 (* walker order, then ONE rand(n) call supplies the accept uniforms); the    *)
 (* harness replays triples of enumerated transitions in one run() call.      *)
 (*                                                                          *)
-(* Init enumerates (case, boundary kinds, table, beta); Weights tabulates the *)
-(* target and the whole matrix P (the weight invariants are stated there);   *)
+(* Proposal modes and consecutive sweeps.  A case may have K modes ("gains":   *)
+(* mode c moves g_c cells per unit innovation, i.e. sigma_c chol_c = g_c/M)   *)
+(* and nsweeps consecutive sweeps of ONE run() call (NextSweep).  The         *)
+(* walker's label lab selects the mode of EVERY proposal of the call and is   *)
+(* never written (LabelFixed, ProposalUsesLabel): each label's kernel is      *)
+(* reversible on its own (DetailedBalance is checked per label), whereas a    *)
+(* label re-derived from the walker's position between sweeps would make the  *)
+(* forward move use mode c(u) and the reverse move c(u').  The harness        *)
+(* replays 2- and 3-sweep behaviours with K = 2 (step-size adaptation pinned  *)
+(* to a no-op) and requires runner.assignments to be unchanged.               *)
+(* Not modelled: non-finite log-likelihoods (a NaN / -inf proposal must be a  *)
+(* rejection); pi > 0 everywhere here - that clause is decided at system      *)
+(* level (PSRun traces).                                                      *)
+(*                                                                          *)
+(* Init enumerates (case, boundary kinds, table, beta, label); Weights        *)
+(* tabulates the target and the whole matrix P (weight invariants there);    *)
 (* Walker picks the current state u; then the sweep.  Part (b) of C03 (tpCN  *)
 (* reversibility identity over rationals) is in KernelTpcn.tla.              *)
 (* All state variables are integers, strings or nested sequences so that     *)
